@@ -4,13 +4,17 @@
    case (2 o construct)        -> (0 decls guard)                  : promote (sigma_rank o)
    case (3 o names)            -> (0 (x)?)                         : pop_site (sigma_rank o)
    case (6 progs)              -> (0 ((0 ((y e t)...)) | (1))...)  : map transl_dev  (device-registry sessions)
+   case (7 progs)              -> (0 ((out...)...))                : helper session under Python's == and the memoised
+                                                                     helpers of the regenerated inventory (cached_gen)
+   hcall: (0 indent var value) _emit_duration_ms | (1 value) _format_float     value: (0 n) | (1 (num den)) | (2 b) | (3 text)
+   hout:  (0 indent var value) literal form | (1 indent var expr) run-time form | (2 micro) float literal | (3) raises
    dstmt: (0 x kind) | (1 y x meth)    kind: 0 Servo 1 Pot 2 Serial 3 Ultra 4 Button 5 Led   meth: 0 read 1 read_us 2 measure 3 pressed 4 state 5 bright
    stmt:  (0 x t) | (1 o (body...)) if | (2 o body) while | (3 o v body) for | (4 o (body...)) try
    item:  (0 stmt) | (1 f body) | (2 body)
    construct: (0 parent ((x t)...)...) | (1 body_decls ((x t)...))
    node:  (0 x t) decl | (1 x) assign | (2 (body...)) if | (3 body) while | (4 v body) for | (5 (body...)) try *)
 From Coq Require Import ZArith List Bool.
-From RV Require Import Base.Wire Base.Text Lang.Order Lang.DevSession.
+From RV Require Import Base.Wire Base.Text Lang.Order Lang.DevSession Lang.MemoSession Gen.SetSites Lang.OrderSites.
 Import ListNotations.
 Open Scope Z_scope.
 
@@ -150,6 +154,52 @@ Definition enc_dout (o : option (list rdecl)) : wv :=
   | None => WL [WI 1]
   end.
 
+Definition dec_pval (v : wv) : option pval :=
+  match v with
+  | WL [WI 0; WI n] => Some (VI n)
+  | WL [WI 1; q] => option_map VF (un_q q)
+  | WL [WI 2; b] => option_map VB (un_bool b)
+  | WL [WI 3; s] => option_map VS (un_text s)
+  | _ => None
+  end.
+
+Definition dec_hcall (v : wv) : option hcall :=
+  match v with
+  | WL [WI 0; i; x; a] =>
+      match un_text i, un_text x, dec_pval a with Some i, Some x, Some a => Some (CDur i x a) | _, _, _ => None end
+  | WL [WI 1; a] => option_map CFmt (dec_pval a)
+  | _ => None
+  end.
+
+Fixpoint dec_hcalls (l : list wv) : option (list hcall) :=
+  match l with
+  | [] => Some []
+  | x :: r => match dec_hcall x, dec_hcalls r with Some s, Some ss => Some (s :: ss) | _, _ => None end
+  end.
+
+Fixpoint dec_hprogs (l : list wv) : option (list (list hcall)) :=
+  match l with
+  | [] => Some []
+  | WL p :: r => match dec_hcalls p, dec_hprogs r with Some s, Some ss => Some (s :: ss) | _, _ => None end
+  | _ => None
+  end.
+
+Definition enc_pval (v : pval) : wv :=
+  match v with
+  | VI n => WL [WI 0; WI n]
+  | VF q => WL [WI 1; wq q]
+  | VB b => WL [WI 2; wbool b]
+  | VS s => WL [WI 3; wtext s]
+  end.
+
+Definition enc_hout (o : hout) : wv :=
+  match o with
+  | ODurLit i x v => WL [WI 0; wtext i; wtext x; enc_pval v]
+  | ODurArg i x e => WL [WI 1; wtext i; wtext x; wtext e]
+  | OFix m => WL [WI 2; WI m]
+  | ORaise => WL [WI 3]
+  end.
+
 Definition run (v : wv) : wv :=
   match v with
   | WL [WI 0; WL items] =>
@@ -175,6 +225,11 @@ Definition run (v : wv) : wv :=
   | WL [WI 6; WL progs] =>
       match dec_dprogs progs with
       | Some ps => wok [WL (map enc_dout (map transl_dev ps))]
+      | None => wbad
+      end
+  | WL [WI 7; WL progs] =>
+      match dec_hprogs progs with
+      | Some ps => wok [WL (map (fun o => WL (map enc_hout o)) (session py_keq cached_gen keep keep [] ps))]
       | None => wbad
       end
   | _ => wbad
